@@ -22,6 +22,8 @@ pub enum Beh {
     Flapping(u64, u64),
     /// responsive, except unreachable during [a, b)
     DownBetween(u64, u64),
+    /// every send_to towards it fails (wrong address family, port 0, no route)
+    Unsendable,
 }
 
 #[derive(Clone, Debug)]
@@ -43,6 +45,8 @@ pub struct Cfg {
     pub waiters: Vec<u64>,
     pub horizon_ms: u64,
     pub latency: u64,
+    /// every send_to of the node completes only after this many ms (the datagram leaves at once)
+    pub send_delay_ms: u64,
     pub rng_seed: u64,
 }
 
@@ -76,6 +80,10 @@ pub fn build(cfg: &Cfg) -> (Scenario, Vec<Box<dyn Peer>>) {
             Beh::ErrorReply => r.mode = Mode::ErrorReply,
             Beh::Garbage => r.mode = Mode::Garbage,
             Beh::Echo => r.mode = Mode::Echo,
+            Beh::Unsendable => {
+                r.mode = Mode::Silent;
+                sc.fail_dst.push(contact_addr(i, cfg.v6));
+            }
             Beh::ResponsiveFrom(t) => r.up = vec![(*t, u64::MAX)],
             Beh::DownBetween(a, b) => r.up = vec![(0, *a), (*b, u64::MAX)],
             Beh::Flapping(a, d) => {
@@ -120,6 +128,7 @@ pub fn build(cfg: &Cfg) -> (Scenario, Vec<Box<dyn Peer>>) {
     sc.actions.push((When::At(cfg.horizon_ms - 20), Action::LocalAddr { node: 0, tag: "final-addr".into() }));
     sc.actions.push((When::At(cfg.horizon_ms - 20), Action::LoadContacts { node: 0, tag: "final-contacts".into() }));
     sc.actions.push((When::At(cfg.horizon_ms - 20), Action::Search { node: 0, info_hash: InfoHash::sha1(b"c15"), announce: false, tag: "final-search".into() }));
+    sc.send_delay_ms = cfg.send_delay_ms;
     sc.sample = vec![(0, 10_000, 5_000)];
     sc.horizon_ms = cfg.horizon_ms;
     let lat = cfg.latency;
@@ -221,6 +230,7 @@ fn beh_json(b: &Beh) -> Value {
         Beh::ResponsiveFrom(t) => json!({"from":t}),
         Beh::Flapping(a, d) => json!({"flap":[a,d]}),
         Beh::DownBetween(a, b) => json!({"down":[a,b]}),
+        Beh::Unsendable => json!("Unsendable"),
         other => json!(format!("{:?}", other)),
     }
 }
@@ -239,11 +249,12 @@ fn beh_parse(v: &Value) -> Beh {
         "ErrorReply" => Beh::ErrorReply,
         "Garbage" => Beh::Garbage,
         "Echo" => Beh::Echo,
+        "Unsendable" => Beh::Unsendable,
         _ => Beh::Responsive,
     }
 }
 fn cfg_json(c: &Cfg) -> Value {
-    json!({"v6":c.v6,"read_only":c.read_only,"contacts":c.contacts.iter().map(beh_json).collect::<Vec<_>>(),"nodes":c.nodes,"routers":c.routers,"bad_routers":c.bad_routers,"twin_ids":c.twin_ids,"cancelled_waiters":c.cancelled_waiters.iter().map(|(a,b)| json!([a,b])).collect::<Vec<_>>(),"waiters":c.waiters,"horizon_ms":c.horizon_ms,"latency":c.latency,"rng_seed":c.rng_seed})
+    json!({"v6":c.v6,"read_only":c.read_only,"contacts":c.contacts.iter().map(beh_json).collect::<Vec<_>>(),"nodes":c.nodes,"routers":c.routers,"bad_routers":c.bad_routers,"twin_ids":c.twin_ids,"cancelled_waiters":c.cancelled_waiters.iter().map(|(a,b)| json!([a,b])).collect::<Vec<_>>(),"waiters":c.waiters,"horizon_ms":c.horizon_ms,"latency":c.latency,"send_delay_ms":c.send_delay_ms,"rng_seed":c.rng_seed})
 }
 fn cfg_parse(v: &Value) -> Cfg {
     let us = |k: &str| -> Vec<usize> { v[k].as_array().map(|a| a.iter().map(|x| x.as_u64().unwrap() as usize).collect()).unwrap_or_default() };
@@ -259,6 +270,7 @@ fn cfg_parse(v: &Value) -> Cfg {
         waiters: v["waiters"].as_array().map(|a| a.iter().map(|x| x.as_u64().unwrap()).collect()).unwrap_or_default(),
         horizon_ms: v["horizon_ms"].as_u64().unwrap_or(60_000),
         latency: v["latency"].as_u64().unwrap_or(20),
+        send_delay_ms: v["send_delay_ms"].as_u64().unwrap_or(0),
         rng_seed: v["rng_seed"].as_u64().unwrap_or(1),
     }
 }
@@ -289,7 +301,7 @@ pub fn replay(v: &Value) -> i32 {
 
 pub fn configs(tier: Tier, seed: u64) -> Vec<Cfg> {
     let mut out = vec![];
-    let base = |contacts: Vec<Beh>, nodes: Vec<usize>, routers: Vec<usize>, waiters: Vec<u64>, horizon: u64| Cfg { v6: false, read_only: true, contacts, nodes, routers, bad_routers: vec![], twin_ids: false, cancelled_waiters: vec![], waiters, horizon_ms: horizon, latency: 20, rng_seed: seed };
+    let base = |contacts: Vec<Beh>, nodes: Vec<usize>, routers: Vec<usize>, waiters: Vec<u64>, horizon: u64| Cfg { v6: false, read_only: true, contacts, nodes, routers, bad_routers: vec![], twin_ids: false, cancelled_waiters: vec![], waiters, horizon_ms: horizon, latency: 20, send_delay_ms: 0, rng_seed: seed };
     // no contacts at all
     for ro in [true, false] {
         for v6 in [false, true] {
@@ -386,6 +398,27 @@ pub fn configs(tier: Tier, seed: u64) -> Vec<Cfg> {
             out.push(c);
         }
     }
+    // contacts that cannot even be sent to (an IPv4 node given IPv6 addresses, port 0), before / among answering ones
+    for (bad, good) in [(14usize, 1usize), (3, 2), (1, 1), (30, 3)] {
+        for seed_shift in 0..tier.pick(3u64, 8) {
+            let mut behs = vec![Beh::Unsendable; bad];
+            behs.extend(vec![Beh::Responsive; good]);
+            let n = behs.len();
+            let mut c = base(behs, (0..n).collect(), vec![], vec![0, 3_000], 700_000);
+            // the iteration order of the contact set depends on the process-wide hasher state; several runs
+            c.rng_seed += seed_shift;
+            out.push(c);
+        }
+    }
+    // send_to that completes late: the answer can be in before the call returns
+    for delay in [1u64, 50, 300] {
+        for n in [1usize, 3] {
+            let mut c = base(vec![Beh::Responsive; n], (0..n).collect(), vec![], vec![0, 2_000], 700_000);
+            c.send_delay_ms = delay;
+            c.latency = 1;
+            out.push(c);
+        }
+    }
     // flapping contacts (no deadline asserted; liveness only)
     out.push(base(vec![Beh::Flapping(10_000, 120_000); 2], vec![0, 1], vec![], vec![0, 15_000, 200_000], tier.pick(600_000, 3_600_000)));
     out
@@ -417,8 +450,8 @@ pub fn run(tier: Tier) -> Report {
     let fs = fates();
     let mut levels = vec![];
     let picks: Vec<Cfg> = vec![
-        Cfg { v6: false, read_only: true, contacts: vec![Beh::Responsive], nodes: vec![0], routers: vec![], bad_routers: vec![], twin_ids: false, cancelled_waiters: vec![], waiters: vec![0, 2_000], horizon_ms: 700_000, latency: 20, rng_seed: seed },
-        Cfg { v6: false, read_only: true, contacts: vec![Beh::Responsive, Beh::Silent, Beh::Responsive], nodes: vec![0, 1, 2], routers: vec![], bad_routers: vec![], twin_ids: false, cancelled_waiters: vec![], waiters: vec![0], horizon_ms: 700_000, latency: 20, rng_seed: seed },
+        Cfg { v6: false, read_only: true, contacts: vec![Beh::Responsive], nodes: vec![0], routers: vec![], bad_routers: vec![], twin_ids: false, cancelled_waiters: vec![], waiters: vec![0, 2_000], horizon_ms: 700_000, latency: 20, send_delay_ms: 0, rng_seed: seed },
+        Cfg { v6: false, read_only: true, contacts: vec![Beh::Responsive, Beh::Silent, Beh::Responsive], nodes: vec![0, 1, 2], routers: vec![], bad_routers: vec![], twin_ids: false, cancelled_waiters: vec![], waiters: vec![0], horizon_ms: 700_000, latency: 20, send_delay_ms: 0, rng_seed: seed },
     ];
     for cfg in picks.iter().take(tier.pick(2, 2)) {
         let run_one = |prefix: &[usize]| -> RunOutcome {
